@@ -180,7 +180,9 @@ CHECKS.update({
          "(ROM boot with a tape and a key script; tape inserted with the autoload snapshot and fast loading) under 18 drivings - repeated, random "
          "FrameCount partitions, Max mode, breakpoint stop/resume every k instructions, after every instruction and inside FrameCount(n) calls with speed "
          "re-selection at stops, a different way of driving for every call, sound off, audio never drained, four asset implementations - and EmuTrace requires the digest of registers, clock, all RAM, "
-         "both frame buffers, border and paging (and the audio stream where comparable) to depend on (scenario, frame) only."),
+         "both frame buffers, border and paging (and the audio stream where comparable) to depend on (scenario, frame) only. Asset.tla is the "
+         "byte-stream contract of LoadableAsset/SeekableAsset; MC_Asset runs the trait's read_exact loop over every behaviour the contract allows; "
+         "AssetTrace validates random call sequences on BufferCursor, FileAsset, GzipAsset and DynamicAsset."),
    note="Trusted: TLC, a 64-bit FNV digest (collisions ignored), the RAM-bank hook. Four to eight scenarios per shard."),
 })
 CHECKS.update({
